@@ -121,8 +121,16 @@ func (r *Run) frameGoal(items []frameItem, entry, st *State, k string, x Term) (
 	pre := and(app("Bool", "<=", x, wm0), not(eq(x, intLit(0))))
 	switch {
 	case strings.HasPrefix(k, "H|"):
-		exp := sel(e0, x)
-		cur := sel(e1, x)
+		// exp is rebuilt item by item; each step is let-bound so that the term stays linear in the number of items
+		var binds []string
+		bind := func(t Term) Term {
+			n := fmt.Sprintf("fe%d_%d", len(binds), r.qctr)
+			binds = append(binds, fmt.Sprintf("(%s %s)", n, t.S))
+			return Term{n, t.Sort}
+		}
+		r.qctr++
+		cur := bind(sel(e1, x))
+		exp := bind(sel(e0, x))
 		for _, it := range items {
 			switch it.kind {
 			case "heap":
@@ -131,16 +139,20 @@ func (r *Run) frameGoal(items []frameItem, entry, st *State, k string, x Term) (
 				}
 			case "obj":
 				if "H|"+typeKey(it.T) == k {
-					exp = ite(eq(x, it.ref), cur, exp)
+					exp = bind(ite(eq(x, it.ref), cur, exp))
 				}
 			case "path":
 				if it.loc.kind == rootHeap && "H|"+typeKey(it.loc.T) == k {
 					np := r.updPath(exp, it.loc.path, r.readPathOf(cur, it.loc.path))
-					exp = ite(eq(x, it.loc.ref), np, exp)
+					exp = bind(ite(eq(x, it.loc.ref), np, exp))
 				}
 			}
 		}
-		return implies(pre, eq(cur, exp)), true
+		body := implies(pre, eq(cur, exp)).S
+		for i := len(binds) - 1; i >= 0; i-- {
+			body = "(let (" + binds[i] + ") " + body + ")"
+		}
+		return Term{body, "Bool"}, true
 	case strings.HasPrefix(k, "A|") && !strings.HasPrefix(k, "A|CB"):
 		exp := sel(e0, x)
 		cur := sel(e1, x)
